@@ -101,7 +101,9 @@ Definition trim_suffix (suf s : str) : str :=
 
 (** environment of one run *)
 Record env := Env {
-  faults : list nat;        (* indices (in the run's call sequence) of calls that fail *)
+  faults : list nat;        (* indices (in the run's call sequence) of calls that fail without effect *)
+  efaults : list nat;       (* indices of calls that TAKE EFFECT and report an error (a time-out after the
+                               back-end did the work); only Delete and Store have an effect to take *)
   cancel_at : option nat;   (* ctx is cancelled when this call begins *)
   lfe : bool                (* List of a terminal key: empty listing (FileStorage) or error *)
 }.
@@ -114,6 +116,7 @@ Record event := Ev { ev_kind : opk; ev_key : key; ev_ok : bool }.
 Record st := St { sto : store; lg : list event (* newest first *) }.
 
 Definition faulty (e : env) (s : st) : bool := existsb (Nat.eqb (length (lg s))) (faults e).
+Definition efaulty (e : env) (s : st) : bool := existsb (Nat.eqb (length (lg s))) (efaults e).
 Definition cancelled (e : env) (s : st) : bool :=
   match cancel_at e with Some c => (c <? length (lg s))%nat | None => false end.
 Definition logged (k : opk) (ky : key) (ok : bool) (sto' : store) (s : st) : st :=
@@ -159,12 +162,14 @@ Definition do_stat (e : env) (k : key) (s : st) : stat_res * st :=
 
 Definition do_delete (e : env) (k : key) (s : st) : bool * st :=
   if faulty e s then (false, logged KDelete k false (sto s) s)
+  else if efaulty e s then (false, logged KDelete k false (remove k (sto s)) s)
   else (true, logged KDelete k true (remove k (sto s)) s).
 
 (** Store of a terminal key; fails on an existing directory (rename over a directory) *)
 Definition do_store (e : env) (k : key) (n : node) (s : st) : bool * st :=
   if faulty e s then (false, logged KStore k false (sto s) s) else
   if is_dir (sto s) k then (false, logged KStore k false (sto s) s)
+  else if efaulty e s then (false, logged KStore k false (put k n (sto s)) s)
   else (true, logged KStore k true (put k n (sto s)) s).
 
 Definition do_lock (e : env) (s : st) : bool * st :=
@@ -424,6 +429,9 @@ Definition mutates (k : opk) : bool := match k with KDelete | KStore => true | _
 Definition has_kind (p : opk -> bool) (l : list event) : bool := existsb (fun ev => p (ev_kind ev)) l.
 Definition stored_ok (l : list event) : bool :=
   existsb (fun ev => match ev_kind ev with KStore => seqb (ev_key ev) spec_last_clean && ev_ok ev | _ => false end) l.
+(** a Store of last_clean.json was issued (whatever it reported) *)
+Definition stored_any (l : list event) : bool :=
+  existsb (fun ev => match ev_kind ev with KStore => seqb (ev_key ev) spec_last_clean | _ => false end) l.
 Definition does_work (k : opk) : bool :=
   match k with KList | KStat | KDelete | KStore => true | _ => false end.
 
